@@ -3,52 +3,49 @@ package main
 import (
 	"go/ast"
 	"strings"
+
+	"verif/harness/internal/fact"
 )
 
-func init() {
-	groups["txtar"] = genTxtar
-	groupOut["txtar"] = "Txtar"
-}
-
-func genTxtar(g *gen) {
+func genTxtar(g *fact.Gen) {
 	const rel = "txtar/archive.go"
-	g.emitBytesVar(rel, "marker", "marker", "-- ")
-	g.emitBytesVar(rel, "markerEnd", "markerEnd", " --")
-	g.emitBytesVar(rel, "newlineMarker", "newlineMarker", "\n-- ")
+	g.EmitBytesVar(rel, "marker", "marker", "-- ")
+	g.EmitBytesVar(rel, "markerEnd", "markerEnd", " --")
+	g.EmitBytesVar(rel, "newlineMarker", "newlineMarker", "\n-- ")
 
-	isMarker := g.funcDecl(rel, "isMarker")
-	g.emitBool("lenGuard", "isMarker guards the name slice with `len(data) >= len(marker)+len(markerEnd)` before slicing.", true, func() (bool, bool, string) {
+	isMarker := g.FuncDecl(rel, "isMarker")
+	g.EmitBool("lenGuard", "isMarker guards the name slice with `len(data) >= len(marker)+len(markerEnd)` before slicing.", true, func() (bool, bool, string) {
 		if isMarker == nil {
 			return false, false, "func isMarker not found"
 		}
-		s := g.src(isMarker.Body)
+		s := g.Src(isMarker.Body)
 		if !strings.Contains(s, "data[len(marker):len(data)-len(markerEnd)]") {
 			return false, false, "name slice expression not found"
 		}
 		guard := strings.Contains(s, "len(data)>=len(marker)+len(markerEnd)") || strings.Contains(s, "len(data)<len(marker)+len(markerEnd)")
 		return guard, true, ""
 	})
-	g.emitBool("crAtEOF", "isMarker strips a trailing '\\\\r' from the marker line also when the line has no final newline (true), or only inside the newline branch (false).", true, func() (bool, bool, string) {
+	g.EmitBool("crAtEOF", "isMarker strips a trailing '\\\\r' from the marker line also when the line has no final newline (true), or only inside the newline branch (false).", true, func() (bool, bool, string) {
 		if isMarker == nil {
 			return false, false, "func isMarker not found"
 		}
 		// locate the `if i := bytes.IndexByte(data, '\n'); i >= 0 { ... }` statement
 		var nlIf *ast.IfStmt
 		for _, st := range isMarker.Body.List {
-			if is, ok := st.(*ast.IfStmt); ok && strings.Contains(g.src(is.Init), "bytes.IndexByte(data,'\\n')") {
+			if is, ok := st.(*ast.IfStmt); ok && strings.Contains(g.Src(is.Init), "bytes.IndexByte(data,'\\n')") {
 				nlIf = is
 			}
 		}
 		if nlIf == nil {
 			return false, false, "newline branch not found"
 		}
-		inside := strings.Contains(g.src(nlIf.Body), "'\\r'") || strings.Contains(g.src(nlIf.Body), `"\r"`)
+		inside := strings.Contains(g.Src(nlIf.Body), "'\\r'") || strings.Contains(g.Src(nlIf.Body), `"\r"`)
 		outside := false
 		for _, st := range isMarker.Body.List {
 			if st == ast.Stmt(nlIf) {
 				continue
 			}
-			s := g.src(st)
+			s := g.Src(st)
 			if strings.Contains(s, "'\\r'") || strings.Contains(s, `"\r"`) {
 				outside = true
 			}
@@ -61,12 +58,12 @@ func genTxtar(g *gen) {
 		}
 		return false, false, "carriage-return handling has an unrecognised shape"
 	})
-	g.emitBool("needsQuoteTestsName", "NeedsQuote returns `name != \"\"` (true) or `after != nil` (false).", true, func() (bool, bool, string) {
-		fd := g.funcDecl(rel, "NeedsQuote")
+	g.EmitBool("needsQuoteTestsName", "NeedsQuote returns `name != \"\"` (true) or `after != nil` (false).", true, func() (bool, bool, string) {
+		fd := g.FuncDecl(rel, "NeedsQuote")
 		if fd == nil {
 			return false, false, "func NeedsQuote not found"
 		}
-		s := g.src(fd.Body)
+		s := g.Src(fd.Body)
 		switch {
 		case strings.Contains(s, "findFileMarker(data)") && strings.Contains(s, `returnname!=""`):
 			return true, true, ""
